@@ -304,7 +304,7 @@ func runB(c CaseB, report func(*core.Violation)) {
 	}
 
 	// 4. what the compiler got
-	if len(ccs) != 1 {
+	if len(ccs) != 1 && (!nameOnCmdline || neutral) {
 		report(core.V("build|compiler-runs|"+formatName(c.Format), "%s: %d compiler invocations, expected 1", where, len(ccs)))
 		if len(ccs) == 0 {
 			return
@@ -336,6 +336,15 @@ func runB(c CaseB, report func(*core.Violation)) {
 				svc = append(svc, a)
 			}
 		}
+		if nameOnCmdline && name != "" {
+			want := `-DSERVICE_NAME="` + name + `"` // MainSvc.c uses SERVICE_NAME as a string literal
+			if len(svc) != 1 || !sameLiteral(svc[0], name) {
+				// the shell took the name apart: the rest of this command line is cut or
+				// shifted as a consequence, so it is not judged separately
+				report(core.V("build|service-name|altered-by-shell", "%s: the build succeeded but the compiler got %q instead of the single argument %q", where, svc, want))
+				continue
+			}
+		}
 		wantTransport := "-DTRANSPORT_HTTP"
 		if c.Cfg.SMB {
 			wantTransport = "-DTRANSPORT_SMB"
@@ -356,22 +365,60 @@ func runB(c CaseB, report func(*core.Violation)) {
 			}
 			report(core.V("build|config-bytes-differ|"+formatName(c.Format)+q, "%s: the compiler got a %d-byte block, PatchConfig() for the same options and listener gives %d bytes; headers in the compiled block: %q", where, len(cfgArgs[0]), len(refBytes), hs))
 		}
-		if nameOnCmdline && name != "" {
-			want := `-DSERVICE_NAME="` + name + `"` // MainSvc.c uses SERVICE_NAME as a string literal
-			if len(svc) != 1 || svc[0] != want {
-				report(core.V("build|service-name|altered-by-shell", "%s: the build succeeded but the compiler got %q instead of the single argument %q", where, svc, want))
-			}
-		}
 	}
 	// the block the compiler got also passes (a)'s oracle (when it differs from
 	// PatchConfig()'s, that difference has been reported above)
 	if len(ccs) > 0 {
 		for _, a := range ccs[len(ccs)-1].Args {
 			if raw, good := parseConfigBytes(a); good && bytes.Equal(raw, refBytes) {
-				verifyFields(c.Cfg, raw, report)
+				if e := expect(c.Cfg); len(e.MustFail) > 0 {
+					report(core.V("patch|accepted-unencodable|"+e.MustFail[0], "%s: a payload was compiled although the settings cannot be encoded: %v", where, e.MustFail))
+				} else {
+					verifyFields(c.Cfg, raw, report)
+				}
 			}
 		}
 	}
+}
+
+// sameLiteral: arg is -DSERVICE_NAME="<name>" with the name either verbatim or written
+// as the C string literal that denotes it (\\ \" \n \r \t escapes).
+func sameLiteral(arg, name string) bool {
+	const p = `-DSERVICE_NAME="`
+	if !strings.HasPrefix(arg, p) || !strings.HasSuffix(arg, `"`) || len(arg) < len(p)+1 {
+		return false
+	}
+	inner := arg[len(p) : len(arg)-1]
+	if inner == name {
+		return true
+	}
+	var b strings.Builder
+	for i := 0; i < len(inner); i++ {
+		if inner[i] == '"' {
+			return false // an unescaped quote would end the literal early
+		}
+		if inner[i] != '\\' {
+			b.WriteByte(inner[i])
+			continue
+		}
+		i++
+		if i >= len(inner) {
+			return false
+		}
+		switch inner[i] {
+		case 'n':
+			b.WriteByte('\n')
+		case 'r':
+			b.WriteByte('\r')
+		case 't':
+			b.WriteByte('\t')
+		case '\\', '"':
+			b.WriteByte(inner[i])
+		default:
+			return false
+		}
+	}
+	return b.String() == name
 }
 
 func tail(m []consoleMsg, n int) []consoleMsg {
